@@ -74,8 +74,11 @@ StreamOnceP(oseq) ==
     /\ \A i \in DOMAIN oseq : /\ NoRepeat([k \in DOMAIN oseq[i].jobs |-> oseq[i].jobs[k].job])
                               /\ \A k \in DOMAIN oseq[i].jobs :
                                     NoRepeat([m \in DOMAIN oseq[i].jobs[k].spans |-> oseq[i].jobs[k].spans[m].eid])
-    /\ \A i, j \in DOMAIN oseq : i # j =>
-          {oseq[i].jobs[k].job : k \in DOMAIN oseq[i].jobs} \cap {oseq[j].jobs[k].job : k \in DOMAIN oseq[j].jobs} = {}
+    \* no span is streamed under two (name, trace) groups (trace ids need only be unique within a workflow name)
+    /\ \A i, j \in DOMAIN oseq : \A k \in DOMAIN oseq[i].jobs : \A l \in DOMAIN oseq[j].jobs :
+          (i # j \/ k # l) =>
+             {oseq[i].jobs[k].spans[m].eid : m \in DOMAIN oseq[i].jobs[k].spans}
+                \cap {oseq[j].jobs[l].spans[m].eid : m \in DOMAIN oseq[j].jobs[l].spans} = {}
 OutSet(oseq) == UNION {{[name |-> oseq[i].name, job |-> oseq[i].jobs[k].job,
                          spans |-> {oseq[i].jobs[k].spans[m] : m \in DOMAIN oseq[i].jobs[k].spans}]
                         : k \in DOMAIN oseq[i].jobs} : i \in DOMAIN oseq}
